@@ -16,23 +16,30 @@ L1 == [comps |-> <<"c1", "c2">>,
        plain |-> [c \in {"c1", "c2"} |-> IF c = "c1" THEN [p |-> 5] ELSE [q |-> 7]],
        feedbacks |-> {[o |-> "robot", key |-> "rk"], [o |-> "c1", key |-> "k1"]},
        fbtypes |-> [k \in {"rk", "k1"} |-> IF k = "rk" THEN "int" ELSE "bool"],
-       teleAuto |-> FALSE, modes |-> {}, defmode |-> None, period |-> 20000]
+       sm |-> {}, teleAuto |-> FALSE, modes |-> {}, defmode |-> None, period |-> 20000]
 L2 == [comps |-> <<"c1">>,
        has |-> [c \in {"c1"} |-> [setup |-> TRUE, on_enable |-> TRUE, on_disable |-> TRUE]],
        resets |-> [c \in {"c1"} |-> [r |-> 0]],
        plain |-> [c \in {"c1"} |-> [p |-> 5]],
        feedbacks |-> {[o |-> "c1", key |-> "k1"]},
        fbtypes |-> [k \in {"k1"} |-> "int"],
-       teleAuto |-> TRUE, modes |-> {"m1", "m2"}, defmode |-> "m1", period |-> 20000]
+       sm |-> {}, teleAuto |-> TRUE, modes |-> {"m1", "m2"}, defmode |-> "m1", period |-> 20000]
 L3 == [comps |-> <<"c1", "c2">>,
        has |-> [c \in {"c1", "c2"} |-> [setup |-> FALSE, on_enable |-> (c = "c2"), on_disable |-> TRUE]],
        resets |-> [c \in {"c1", "c2"} |-> IF c = "c1" THEN [r |-> 0, s |-> 3] ELSE [r |-> 1]],
        plain |-> [c \in {"c1", "c2"} |-> [p |-> 5]],
        feedbacks |-> {}, fbtypes |-> <<>>,
-       teleAuto |-> FALSE, modes |-> {"m1"}, defmode |-> None, period |-> 5000]
+       sm |-> {}, teleAuto |-> FALSE, modes |-> {"m1"}, defmode |-> None, period |-> 5000]
 L4 == [L2 EXCEPT !.teleAuto = FALSE, !.defmode = None]
+\* two components, the first a StateMachine that teleopPeriodic / the autonomous mode / the other component may engage
+L5 == [comps |-> <<"s1", "c2">>,
+       has |-> [c \in {"s1", "c2"} |-> [setup |-> FALSE, on_enable |-> TRUE, on_disable |-> TRUE]],
+       resets |-> [c \in {"s1", "c2"} |-> <<>>],
+       plain |-> [c \in {"s1", "c2"} |-> [p |-> 5]],
+       feedbacks |-> {}, fbtypes |-> <<>>,
+       sm |-> {"s1"}, teleAuto |-> FALSE, modes |-> {"m1"}, defmode |-> "m1", period |-> 20000]
 
-LayoutOf(n) == CASE n = "L1" -> L1 [] n = "L2" -> L2 [] n = "L3" -> L3 [] n = "L4" -> L4
+LayoutOf(n) == CASE n = "L1" -> L1 [] n = "L2" -> L2 [] n = "L3" -> L3 [] n = "L4" -> L4 [] n = "L5" -> L5
 
 MCInit == /\ \E n \in LayoutNames : \E f \in FmsChoices : Init(LayoutOf(n), f)
           /\ nchg = 0
@@ -48,13 +55,15 @@ WritesFor(k, o) ==
 CbInputs ==
     IF todo = <<>> THEN {}
     ELSE IF Head(todo).k = "fbphase"
-    THEN {[e |-> "cb", k |-> "feedback", o |-> g.o, key |-> g.key, raise |-> r, w |-> <<>>, adv |-> 0, ret |-> iterNo]
+    THEN {[e |-> "cb", k |-> "feedback", o |-> g.o, key |-> g.key, raise |-> r, w |-> <<>>, adv |-> 0, ret |-> iterNo, eng |-> <<>>]
             : g \in fbleft, r \in (IF nfault < MaxFaults THEN BOOLEAN ELSE {FALSE})}
     ELSE IF Head(todo).k \in Pseudo THEN {}
     ELSE LET s == Head(todo) IN
-         {[e |-> "cb", k |-> s.k, o |-> s.o, key |-> "", raise |-> r, w |-> w, adv |-> a, ret |-> 0]
+         {[e |-> "cb", k |-> s.k, o |-> s.o, key |-> "", raise |-> r, w |-> w, adv |-> a, ret |-> 0, eng |-> g]
             : r \in (IF nfault < MaxFaults /\ s.k # "setup" THEN BOOLEAN ELSE {FALSE}),
               w \in WritesFor(s.k, s.o),
+              g \in (IF s.k \in {"teleopPeriodic", "auto.on_iteration", "execute", "disabledPeriodic", "on_enable"}
+                     THEN {<<>>} \cup {<<c>> : c \in sh.sm} ELSE {<<>>}),
               a \in (IF s.k \in {"teleopPeriodic", "execute"} THEN AdvChoices ELSE {0})}
 
 EnvInputs ==
@@ -78,7 +87,7 @@ MCSpec == MCInit /\ [][MCNext]_<<rvars, nchg>>
 Bound == iterNo <= MaxIter
 
 \* absolute time is irrelevant; only the distance to the alarm and to the autonomous timer matter
-MCView == <<sh, ds, fms, exit, selStr, pc, mode, ntMode, todo, fbleft, en, nsetup, rv, fbNT, alarm - now,
+MCView == <<sh, ds, fms, exit, selStr, pc, mode, ntMode, todo, fbleft, en, nsetup, rv, smReq, fbNT, alarm - now,
             IF mode = "auto" THEN now - autoT0 ELSE 0, active, mIter, nfault, swallowed, nchg,
             iterNo>>
 
@@ -94,5 +103,7 @@ Probe_SelectOverrides == ~(mode = "auto" /\ active # None /\ active # sh.defmode
 Probe_ResetWritten == ~(\E c \in CompSet : \E a \in DOMAIN sh.resets[c] : rv[c][a] # sh.resets[c][a])
 Probe_Overrun == ~(pc = "wait" /\ now > alarm)
 Probe_Exited == pc # "exited"
+Probe_SmGo == ~(\E c \in sh.sm : smReq[c] /\ NextSite = Site("execute", c))
+Probe_SmReqSurvivesDisable == ~(\E c \in sh.sm : smReq[c] /\ mode = "disabled" /\ pc = "wait")   \* engaged from disabledPeriodic
 Probe_DirectSwitch == ~(mode = "teleop" /\ pc = "enter" /\ \E c \in CompSet : en[c])
 =============================================================================
